@@ -8,7 +8,7 @@
 
 #include "lib.h"
 using namespace vf;
-using S = QP;
+using S = vf::DefaultScalar;
 
 static const std::vector<mpq_class> &scalars() {
   static const std::vector<mpq_class> s = {mq(0), mq(1), mq(-1), mq(2), mq(1, 3), mq(-5, 7)};
